@@ -38,7 +38,9 @@ SPEC = Spec(
          "empty type, empty containers at every level) through the real splitLogs/splitTraces/splitMetrics with size in "
          "0..total+1; non-trivial = the cut went through a resource (same resource identity on both sides). "
          "proc: the real processor in a synctest bubble, 1-10 labels (arrive payload with client metadata / advance virtual "
-         "time) then Shutdown, configs from the validated space incl. send_batch_size=0, max=0, timeout=0, 0-2 metadata keys "
+         "time) then Shutdown; 40% of the configs from the RAW space (0 < max < size, negative timeout, duplicate keys ...) through the "
+         "real Config.Validate(), accept/reject compared exactly with the model's validCfg, accepted ones run under all oracles; "
+         "the rest from the validated space incl. send_batch_size=0, max=0, timeout=0, 0-2 metadata keys "
          "with mixed-case header names, absent/empty/single/multi values, cardinality limit 0-3; non-trivial = >= 2 metadata "
          "groups or send_batch_max_size set. cardinality-concurrent: native goroutines (GOMAXPROCS >= 4), limit 1-3, 0..limit-1 groups "
          "created first, then 8-16 producers released at once through a barrier whose first requests carry more distinct unseen "
